@@ -79,10 +79,16 @@ Fixpoint index_of (n : string) (l : list (ctree expr)) (k : nat) : option nat :=
   | c :: l' => if String.eqb (ct_name c) n then Some k else index_of n l' (S k)
   end.
 
-(* the wires of a node, with the size carried by the source port *)
+(* the wires of a node, with the size carried by the source port; a through port of the node itself is a
+   wire from its input side to its output side that passes every child (QREF allows no inner connection on it) *)
 Definition wires_of (r : string -> Q) (t : ctree expr) : option (list wire) :=
   let n := List.length (ct_children t) in
-  all_some (map (fun st =>
+  all_some (map (fun p => match evalQ r (snd (snd p)) with
+                          | Some q => Some (Build_wire 0 (S n) q)
+                          | None => None
+                          end)
+                (filter (fun p => dir_eqb (fst (snd p)) DThrough) (ct_ports t)) ++
+            map (fun st =>
                    let '((sr, sp), (tr, tp)) := st in
                    let spos := match sr with None => Some 0%nat | Some c => index_of c (ct_children t) 1 end in
                    let tpos := match tr with None => Some (S n) | Some c => index_of c (ct_children t) 1 end in
@@ -96,7 +102,7 @@ Definition wires_of (r : string -> Q) (t : ctree expr) : option (list wire) :=
                    match spos, tpos, size with
                    | Some a, Some b, Some q => Some (Build_wire a b q)
                    | _, _, _ => None
-                   end) (ct_connections t)).
+                   end) (ct_connections t))%list.
 
 Definition hw_spec (r : string -> Q) (t : ctree expr) : option Q :=
   match wires_of r t with
